@@ -214,6 +214,7 @@ func (c *Call) Release(fault string) {
 
 func (g *Gate) park(c *Call) (string, func()) {
 	if g == nil {
+		vrt.Yield("ext." + c.Kind) // an external call is a scheduling point of the cooperative scheduler
 		return "none", func() {}
 	}
 	c.release = make(chan string)
